@@ -54,7 +54,10 @@ TRUSTED = ["SMF container / track decoding by the extracted specification decode
            "slice::sort_by is stable (C02_stable_sort_unique)"]
 ASSUMES = ["shift law and oracle: no slurred notes (the pitch-bend-range announcement of a slur is placed at max(0, first - 1), "
            "which is not translation invariant), no TIME / PlayFrom / `?` / TrackSync / track change / macro call inside P, "
-           "no negative note timing (a start before tick 0 is written at tick 0)",
+           "no negative note timing (a start before tick 0 is written at tick 0) and no negative gate (q.Random with q near 0: "
+           "the note-off of a note at tick 0 would lie before tick 0): the law of the interpreter's events "
+           "(C14_rest_shift_reservations) is unconditional, the file clamps event times at 0 "
+           "(C14_example_negative_timing_file_refuted)",
            "cut oracle: controller numbers 0..127; values as the writer sends them (clamped to 0..127); pitch bend ignored; "
            "note-offs compared only when no two notes of one pitch overlap in the track",
            "tick oracle: time bases divisible by 4 (48, 96, 480, 960, 100, 52, 60, 200, 1000), so that 4*tb/d is an integer for d = 2, 4, 8, 16"]
@@ -147,6 +150,16 @@ RAMP_CMDS = ["EP.onTime(0,127,!8)", "M.onTime(0,127,48)", "y7.onTime(100,20,!4)"
              "p.onTime(0,127,!4)", "EP.T(127,0,30,0,64,!8)"]
 
 
+# the other reservation commands (C14_rest_shift_reservations): values per note / per tick of a v.onTime ramp, controller
+# events at every note start, random widths - none of them reads an absolute tick.  No negative timing (t.Random, t.onNote
+# with negative values) and no q.Random (around q0 the drawn gate is negative: the note-off lies BEFORE its note-on, for a
+# note at tick 0 before tick 0): an event before tick 0 is written at tick 0 (ASSUMES)
+RSV_CMDS = ["v.onTime(40,100,!2)", "v.onTime(127,10,!4,10,90,!2)", "v.onNote(100,60,80)", "v.onCycle(90,70)", "q.onNote(50,90)",
+            "q.onCycle(100,40)", "o.onNote(4,5)", "o.onCycle(5,6,4)", "t.onNote(5,0,12)", "M.onNoteWave(0,127,!8)",
+            "EP.onNoteWave(127,60,!4)", "y10.onNote(0,64,127)", "y10.onNote(20,100)", "v.Random(6)",
+            "o.Random(2)", "Cresc=4,20,100", "Decresc=2,100,30", "M.Frequency(5)"]
+
+
 def gen_parts(rng, n, events=True, chans=False, ramps=False):
     """chans: the track changes its channel between parts (CH(n)), often followed by a setting on the new channel"""
     parts = []
@@ -156,7 +169,7 @@ def gen_parts(rng, n, events=True, chans=False, ramps=False):
             parts.append("CH(%d) " % rng.choice(CHANS) + (rng.choice(CC_CMDS) + " " if rng.random() < 0.6 else ""))
         elif ramps and k < 0.12:
             # controller / bend ramps: their events are counted from the ramp's start, wherever that falls
-            parts.append(rng.choice(RAMP_CMDS) + " ")
+            parts.append(rng.choice(RAMP_CMDS if rng.random() < 0.5 else RSV_CMDS) + " ")
         elif events and k < 0.30:
             parts.append(rng.choice(EV_CMDS) + " ")
         elif events and k < 0.40:
